@@ -26,6 +26,24 @@ func c07Byte(name string, lo, hi byte) string {
 	return b
 }
 
+// c07Tag: a tag as the formats allow it: one word, or words separated by one blank, two blanks or
+// (thorough tier) a tab (everything after the URI belongs to the tag, verbatim)
+func c07Tag(first bool) string {
+	t := c07Byte("t", 'a', 'z')
+	if !first {
+		return t // (multi-word tags on the first entry only: keeps the number of layouts down)
+	}
+	switch vConcretize(vNondetInt("tagShape", 0, vHi(2, 3))) {
+	case 1:
+		t += " " + c07Byte("t2", 'a', 'z')
+	case 2:
+		t += "  " + c07Byte("t2", 'a', 'z')
+	case 3:
+		t += "\t" + c07Byte("t2", 'a', 'z')
+	}
+	return t
+}
+
 func c07Check(dec config.DecoderType, file string, want []c07Entry, passes int) {
 	d, err := NewDecoder(config.Config{Decoder: dec, Passes: uint(passes)}, strings.NewReader(file))
 	vCheck("F0.decoder", err == nil)
@@ -153,7 +171,7 @@ func HarnessC07Uri() {
 		e := c07Entry{uri: "/" + c07Byte("u", 'a', 'z'), hdr: hdr, host: host}
 		line := e.uri
 		if vNondetBool("hasTag") {
-			e.tag = c07Byte("t", 'a', 'z')
+			e.tag = c07Tag(i == 0)
 			line += " " + e.tag
 		}
 		if vNondetBool("lead") {
@@ -198,7 +216,7 @@ func HarnessC07Uripost() {
 		e := c07Entry{uri: "/" + c07Byte("u", 'a', 'z'), hdr: hdr, host: host, body: vNondetString("b", bl)}
 		line := string(rune('0'+bl)) + " " + e.uri
 		if vNondetBool("hasTag") {
-			e.tag = c07Byte("t", 'a', 'z')
+			e.tag = c07Tag(i == 0)
 			line += " " + e.tag
 		}
 		file += line + "\n" + e.body
@@ -261,4 +279,55 @@ func itoa09x(n int) string {
 		n /= 10
 	}
 	return s
+}
+
+// lines longer than the 4096-byte buffer of the line reader (a long query string, a long in-file
+// header value) are delivered whole: URI, tag, header and body of the entry and the entry after it
+func HarnessC07LongLines() {
+	dec := []config.DecoderType{config.DecoderURI, config.DecoderURIPost}[vConcretize(vNondetInt("dec", 0, 1))]
+	n := []int{100, 4090, 4096, 5000}[vConcretize(vNondetInt("n", 0, 3))]
+	longHeader := vNondetBool("longHeader")
+	q := strings.Repeat("q", n)
+	uri := "/a?x=" + q
+	hv := "v"
+	if longHeader {
+		hv = strings.Repeat("h", n)
+	}
+	file := "[H: " + hv + "]\n"
+	if dec == config.DecoderURIPost {
+		file += "1 " + uri + " tg\nx\n0 /b t2\n"
+	} else {
+		file += uri + " tg\n/b t2\n"
+	}
+	d, err := NewDecoder(config.Config{Decoder: dec, Passes: 2}, strings.NewReader(file))
+	vCheck("L0.decoder", err == nil)
+	if err != nil {
+		return
+	}
+	for k := 0; k < 4; k++ {
+		a, err := d.Scan(context.Background())
+		vCheck("L1.entry.delivered", err == nil)
+		if err != nil {
+			return
+		}
+		req, berr := a.BuildRequest()
+		vCheck("L1.request.builds", berr == nil)
+		if berr != nil {
+			return
+		}
+		if k%2 == 0 {
+			vCheck("L2.long.uri.whole", req.URL.Path == "/a" && len(req.URL.RawQuery) == n+2)
+			vCheck("L2.tag.after.long.uri", a.Tag() == "tg")
+			if dec == config.DecoderURIPost {
+				b, _ := io.ReadAll(req.Body)
+				vCheck("L2.body.after.long.line", string(b) == "x")
+			}
+		} else {
+			vCheck("L2.next.entry.intact", req.URL.Path == "/b" && a.Tag() == "t2")
+		}
+		vCheck("L2.long.header.whole", len(req.Header.Get("H")) == len(hv))
+	}
+	_, err = d.Scan(context.Background())
+	vCheck("L1.ends.at.pass.limit", err == ErrPassLimit)
+	vReach("end")
 }
